@@ -833,6 +833,13 @@ func (ai *absInterp) compute(st *absState, v ssa.Value) aval {
 				return ABool{Atom: "!" + b.Atom, Src: x}
 			}
 		case token.MUL:
+			// a package-level byte-slice template that only its initialiser writes and nobody modifies
+			if g, isG := x.X.(*ssa.Global); isG {
+				if bk := constByteSlice(g); bk != nil {
+					cp := &backing{b: append([]AByte(nil), bk.b...)}
+					return ASlice{bk: cp, off: 0, len: len(cp.b), cap: len(cp.b)}
+				}
+			}
 			if rf, ok := ai.val(st, x.X).(ARef); ok && rf.agg != nil && rf.idx < len(rf.agg.elems) {
 				e := rf.agg.elems[rf.idx]
 				if sub, isAgg := e.(*AAgg); isAgg {
@@ -1648,6 +1655,157 @@ func constByteArray(g *ssa.Global) *backing {
 		return nil
 	}
 	constArrMemo[g] = bk
+	return bk
+}
+
+var constSliceMemo = map[*ssa.Global]*backing{}
+var constSliceDone = map[*ssa.Global]bool{}
+
+// constByteSlice: g is an unexported package-level []byte that the package initialiser sets once to a composite literal of
+// constants, and that is otherwise only loaded to be read — as the source of append/copy, for len/cap, or element by
+// element. The result is its (constant) contents.
+func constByteSlice(g *ssa.Global) *backing {
+	if constSliceDone[g] {
+		return constSliceMemo[g]
+	}
+	constSliceDone[g] = true
+	pt, ok := g.Type().Underlying().(*types.Pointer)
+	if !ok || (g.Object() != nil && g.Object().Exported()) {
+		return nil
+	}
+	sl, ok := pt.Elem().Underlying().(*types.Slice)
+	if !ok {
+		return nil
+	}
+	if ew, _ := typeWidth(sl.Elem()); ew != 8 {
+		return nil
+	}
+	var fns []*ssa.Function
+	var addAnon func(f *ssa.Function)
+	addAnon = func(f *ssa.Function) {
+		fns = append(fns, f)
+		for _, a := range f.AnonFuncs {
+			addAnon(a)
+		}
+	}
+	for _, m := range g.Pkg.Members {
+		switch x := m.(type) {
+		case *ssa.Function:
+			addAnon(x)
+		case *ssa.Type:
+			for _, t := range []types.Type{x.Type(), types.NewPointer(x.Type())} {
+				ms := g.Pkg.Prog.MethodSets.MethodSet(t)
+				for i := 0; i < ms.Len(); i++ {
+					if mf := g.Pkg.Prog.MethodValue(ms.At(i)); mf != nil && mf.Pkg == g.Pkg && mf.Blocks != nil {
+						addAnon(mf)
+					}
+				}
+			}
+		}
+	}
+	var bk *backing
+	readOnly := func(v ssa.Value) bool {
+		for _, ref := range *v.Referrers() {
+			switch r := ref.(type) {
+			case *ssa.DebugRef:
+			case *ssa.Call:
+				bi, isB := r.Call.Value.(*ssa.Builtin)
+				if !isB {
+					return false
+				}
+				switch bi.Name() {
+				case "len", "cap":
+				case "append", "copy":
+					if len(r.Call.Args) < 2 || r.Call.Args[1] != v || r.Call.Args[0] == v {
+						return false
+					}
+				default:
+					return false
+				}
+			case *ssa.IndexAddr:
+				for _, r2 := range *r.Referrers() {
+					if u, ok := r2.(*ssa.UnOp); !ok || u.Op != token.MUL {
+						return false
+					}
+				}
+			default:
+				return false
+			}
+		}
+		return true
+	}
+	for _, f := range fns {
+		isInit := f.Name() == "init" && f.Parent() == nil && f.Signature.Recv() == nil
+		for _, b := range f.Blocks {
+			for _, ins := range b.Instrs {
+				for _, op := range ins.Operands(nil) {
+					if op == nil || *op != ssa.Value(g) {
+						continue
+					}
+					switch x := ins.(type) {
+					case *ssa.Store:
+						if !isInit || x.Addr != ssa.Value(g) || bk != nil {
+							return nil
+						}
+						// the literal: a slice of a fresh array whose elements init stores as constants
+						slc, ok := x.Val.(*ssa.Slice)
+						if !ok || slc.Low != nil || slc.High != nil || slc.Max != nil {
+							return nil
+						}
+						al, ok := slc.X.(*ssa.Alloc)
+						if !ok {
+							return nil
+						}
+						at, ok := al.Type().Underlying().(*types.Pointer).Elem().Underlying().(*types.Array)
+						if !ok {
+							return nil
+						}
+						nb := &backing{b: make([]AByte, at.Len())}
+						for i := range nb.b {
+							nb.b[i] = byteOf(constAInt(0, 8, false))
+						}
+						for _, ref := range *al.Referrers() {
+							switch r := ref.(type) {
+							case *ssa.Slice:
+								if r != slc {
+									return nil
+								}
+							case *ssa.IndexAddr:
+								ic, isI := r.Index.(*ssa.Const)
+								if !isI || len(*r.Referrers()) != 1 {
+									return nil
+								}
+								st, isSt := (*r.Referrers())[0].(*ssa.Store)
+								if !isSt || st.Addr != ssa.Value(r) {
+									return nil
+								}
+								cv, isC := st.Val.(*ssa.Const)
+								if !isC || cv.Value == nil || ic.Int64() < 0 || ic.Int64() >= at.Len() {
+									return nil
+								}
+								nb.b[ic.Int64()] = byteOf(constAInt(uint64(cv.Int64())&0xff, 8, false))
+							case *ssa.DebugRef:
+							default:
+								return nil
+							}
+						}
+						if len(*slc.Referrers()) != 1 {
+							return nil
+						}
+						bk = nb
+					case *ssa.UnOp:
+						if x.Op != token.MUL || !readOnly(x) {
+							return nil
+						}
+					case *ssa.DebugRef:
+					default:
+						return nil
+					}
+				}
+			}
+		}
+	}
+	constSliceMemo[g] = bk
 	return bk
 }
 
